@@ -707,7 +707,7 @@ func c16Vector(c *Ctx, raw stdjson.RawMessage) {
 	}
 	// string lengths that take the enclosing records across the varint boundaries (see strLenSweep)
 	for _, n := range strLenSweep(c, r, v.Shape) {
-		if (n >= 116 && n < 1000) || (c.Tier == "thorough" && n%8 == 0) { // the destination-length loop is quadratic: little of the 16 KiB window
+		if (n >= 116 && n < 1000) || (c.Tier == "thorough" && len(v.Shape) == 1 && n%8 == 0) { // the destination-length loop is quadratic: little of the 16 KiB window, single-field shapes only
 			c.Case()
 			c16Run(c, protoCase{Shape: v.Shape, Val: v.Val, Salt: strLenSalt + n, Ptr: n%2 == 0})
 		}
